@@ -19,7 +19,8 @@ def c16_step(F):
             if kind == "get":
                 idx = next(i for i, x in enumerate(n.in_edges) if x is e)
                 if idx == 0:
-                    st = {"pallet": ev[4].obj, "t_pallet": t, "got": [], "open": True}
+                    # a pallet may arrive loaded (two-stage packing): what it carries on arrival must still be on it when it leaves
+                    st = {"pallet": ev[4].obj, "t_pallet": t, "got": [], "open": True, "preload": list(ev[6])}
                     book["cur"] = st
                     book["by_pallet"][id(ev[4].obj)] = st
                     if not hasattr(ev[4].obj, "items"):
@@ -46,11 +47,15 @@ def c16_step(F):
                     if len(have) != recipe[i]:
                         F.soft("C16:pallet-carries-%s-items-of-an-ingredient-than-the-recipe-says" % ("more" if len(have) > recipe[i] else "fewer"),
                                {"edge": i, "have": len(have), "recipe": recipe[i]})
-                foreign = [x for x in contents if not any(x is o for _, o in st["got"])]
+                pre = st.get("preload", [])
+                foreign = [x for x in contents if not any(x is o for _, o in st["got"]) and not any(x is o for o in pre)]
                 if foreign:
                     F.soft("C16:pallet-carries-items-not-taken-for-it", {"n": len(foreign)})
-                if len(contents) != len(st["got"]):
-                    F.soft("C16:ingredients-taken-but-not-packed", {"taken": len(st["got"]), "packed": len(contents)})
+                lost = [o for o in pre if not any(o is x for x in contents)]
+                if lost:
+                    F.soft("C16:pallet-lost-items-it-carried-when-it-arrived", {"n": len(lost)})
+                if len(contents) != len(st["got"]) + len(pre):
+                    F.soft("C16:ingredients-taken-but-not-packed", {"taken": len(st["got"]), "carried_on_arrival": len(pre), "packed": len(contents)})
                 st["open"] = False
                 # C08 for the combiner: emission no earlier than last ingredient (or pallet) pulled + processing delay
                 d = F.unit_delay.get(n.id)
@@ -136,6 +141,16 @@ def pk_conservation(F):
             F.soft("C03:edge-content-differs-from-ledger", {"edge": e.id, "real": real, "ledger": F.occupancy(e)})
     in_nodes = sum(1 for r in F.items.values() if r.loc is not None and r.loc[0] == "node")
     packed = sum(1 for r in F.items.values() if r.loc is not None and r.loc[0] == "pallet")
+    # "packed in exactly one pallet": while a pallet travels (it is in an edge or was received by a sink) everything the ledger packed on it is
+    # really on it (Pallet.items), and on no other pallet
+    for r in F.items.values():
+        if r.loc is not None and r.loc[0] == "pallet":
+            P = F.rec(r.loc[1])
+            if P.loc is not None and P.loc[0] in ("edge", "sink") and not any(r.obj is x for x in getattr(P.obj, "items", [])):
+                F.soft("C03:packed-item-is-no-longer-on-its-pallet", {"item": repr(r.obj), "pallet": repr(P.obj)})
+            for Q in F.items.values():
+                if Q is not P and hasattr(Q.obj, "items") and Q.loc is not None and Q.loc[0] in ("edge", "sink") and any(r.obj is x for x in Q.obj.items):
+                    F.soft("C03:item-packed-on-two-pallets", {"item": repr(r.obj)})
     seen = sum(1 for r in F.items.values() if r.loc is not None)
     at_sources = gen - sum(1 for r in F.items.values() if r.src is not None and r.src.__class__.__name__ == "Source") - \
         sum(n.stats["num_item_discarded"] for n in F.nodes if n.__class__.__name__ == "Source")
@@ -153,7 +168,7 @@ def pk_conservation(F):
 
 def pk(props=("C16", "C03"), recipe=(1, 1), n_pallets=2, blocking=True, split_out=1, split_sel="FIRST_AVAILABLE", sym=("ip", "ii", "pd"), comb_cap=2,
        until=None, twin=False, split_blocking=None, item_cap=2, mid_cap=1, out_cap=1, out_delay=0, comb_only=False, split_pd="sym", setup=0,
-       mid_mode="FIFO", split_sd_hi=3, split_in_sel="FIRST_AVAILABLE", item_delay=0, item_mode="FIFO", src_sel=0, no_combiner=False, split_quantity=None, out_kind="buffer", mid_kind="buffer", conv_kw=None, comb_out_sel="FIRST_AVAILABLE"):
+       mid_mode="FIFO", split_sd_hi=3, split_in_sel="FIRST_AVAILABLE", item_delay=0, item_mode="FIFO", src_sel=0, no_combiner=False, split_quantity=None, out_kind="buffer", mid_kind="buffer", conv_kw=None, comb_out_sel="FIRST_AVAILABLE", recipe2=None):
     """pallet source + item source(s) -> Combiner(recipe) -> MID -> Splitter -> OUT_j -> sinks"""
     def fn(ctx):
         from factorysimpy.nodes.source import Source
@@ -193,6 +208,20 @@ def pk(props=("C16", "C03"), recipe=(1, 1), n_pallets=2, blocking=True, split_ou
             idl = ctx.real("idl", 0, 2) if (item_delay == "sym-last" and i == n_ing - 1) else (0 if item_delay == "sym-last" else item_delay)
             ei = _edge(F, "buffer", f"BI{i}", item_cap, idl, mode=item_mode)
             ei.connect(si, comb)
+        if recipe2 is not None:
+            # two-stage packing: the loaded pallets of CMB feed the pallet in-edge of a second combiner with its own ingredient source(s)
+            pd2 = ctx.real("pd2", 0, 3) if "pd" in sym else 1
+            comb2 = F.add_node(Combiner(env, "CMB2", target_quantity_of_each_item=list(recipe2), processing_delay=F.delay_source("CMB2", [pd2] * (n_pallets + 1), "callable", after=1),
+                                        blocking=blocking, node_setup_time=setup))
+            F.unit_delay["CMB2"] = pd2
+            e12 = _edge(F, "buffer", "STAGE", mid_cap, 0)
+            e12.connect(comb, comb2)
+            for i in range(len(recipe2) - 1):
+                ij = ctx.real("ij", 0.25, 3) if "ii" in sym else 1
+                sj = F.add_node(Source(env, f"SJ{i}", inter_arrival_time=F.delay_source(f"SJ{i}", [ij] * max(recipe2[i + 1] * n_pallets, 1), "generator"), blocking=True, out_edge_selection=src_sel))
+                ej = _edge(F, "buffer", f"BJ{i}", item_cap, 0, mode=item_mode)
+                ej.connect(sj, comb2)
+            comb = comb2
         sinks = []
         if comb_only:
             k = F.add_node(Sink(env, "K0"))
